@@ -591,28 +591,59 @@ def check_permute_direction(prog, rep):
                       'permutation that is not an involution' % (pname, pname, pname), f.lineno)
     # (2) call sites in mps.py
     n = 1
-    for q, g in m.functions.items():
+    for q, g0 in m.functions.items():
+        if 'permute_sites' not in unparse(g0):
+            continue
+        g = inline_temps(g0)
         for c in body_nodes(g):
             if not (isinstance(c, ast.Call) and isinstance(c.func, ast.Attribute) and
                     c.func.attr == 'permute_sites' and c.args):
                 continue
             arg = c.args[0]
+            if isinstance(arg, ast.Name):
+                # a temporary the normal form left in place: the closest earlier binding among
+                # the preceding statements of the same block
+                st0 = c
+                while not isinstance(st0, ast.stmt):
+                    st0 = parent(st0)
+                blk = None
+                par = parent(st0)
+                for fld in ('body', 'orelse', 'finalbody'):
+                    b_ = getattr(par, fld, None)
+                    if isinstance(b_, list) and any(x is st0 for x in b_):
+                        blk = b_
+                if blk is not None:
+                    for prev in reversed(blk[:[i_ for i_, x in enumerate(blk) if x is st0][0]]):
+                        if isinstance(prev, ast.Assign) and len(prev.targets) == 1 and \
+                                isinstance(prev.targets[0], ast.Name) and \
+                                prev.targets[0].id == arg.id:
+                            arg = prev.value
+                            break
             inv = isinstance(arg, ast.Call) and call_name(arg) == 'inverse_permutation'
             base = arg.args[0] if inv and arg.args else arg
-            if not isinstance(base, ast.Name):
+            A = unparse(base)
+            if isinstance(base, ast.Constant):
                 continue
-            A = base.id
             gathers = []
             for x in ast.walk(g):
-                if isinstance(x, ast.ListComp) and len(x.generators) == 1 and isinstance(
-                        x.generators[0].iter, ast.Name) and x.generators[0].iter.id == A and \
+                if isinstance(x, ast.ListComp) and len(x.generators) == 1 and \
+                        unparse(x.generators[0].iter) == A and \
                         isinstance(x.elt, ast.Subscript) and isinstance(
                             x.generators[0].target, ast.Name) and \
                         unparse(x.elt.slice) == x.generators[0].target.id:
                     gathers.append(x)
-                if isinstance(x, ast.Subscript) and isinstance(x.slice, ast.Name) and \
-                        x.slice.id == A and isinstance(x.ctx, ast.Load):
+                if isinstance(x, ast.Subscript) and unparse(x.slice) == A and \
+                        isinstance(x.ctx, ast.Load) and not isinstance(x.slice, ast.Constant):
                     gathers.append(x)
+                if isinstance(x, ast.For) and unparse(x.iter) == A and \
+                        isinstance(x.target, ast.Name):
+                    # `for j in A: out.append(L[j])`
+                    for y in ast.walk(x):
+                        if isinstance(y, ast.Call) and isinstance(y.func, ast.Attribute) and \
+                                y.func.attr == 'append' and y.args and isinstance(
+                                    y.args[0], ast.Subscript) and \
+                                unparse(y.args[0].slice) == x.target.id:
+                            gathers.append(y.args[0])
             if not gathers:
                 continue
             n += 1
